@@ -73,7 +73,7 @@ CHECKS = {
     "C04": dict(
         level="exploration",
         text="Hypothesis-generated compartmental schemes (1-5 compartments, chains / trees / reversible chains / parallel / rings with real spectrum, 1-3 combined K-matrices with overridden entries, shuffled declaration order, any initial distribution with/without exclude_from_normalize, arbitrary time axes): the decay, decay-sequential and decay-parallel matrices are compared with exp(Kt)j evaluated by mpmath.expm at 50 digits from a K assembled by the oracle itself; differential sequential/parallel vs general, conservation for closed systems, and the reported rates / lifetimes / A-matrix / DAS / K-matrix of a one-evaluation optimize(). The time axis is also handed over descending / shuffled / strided / read-only, and every evaluation is repeated after a refused one (bit-identical). Time axes of 1025..9000 points are decided metamorphically (every row equals the row of the same time point on a short axis); a decoy axis with the same length and end points is evaluated first.",
-        note="Tolerance 100 eps cond(V) (1+|K|t)|j| per time point; cases with relative eigenvalue gap < 1e-2, complex eigenvalues, cond(V) > 1e6 or |K|t > 1e7 are discarded and counted.",
+        note="Tolerance 1000 eps cond(V) (1+|K|t)|j| per time point; cases with relative eigenvalue gap < 1e-2, complex eigenvalues, cond(V) > 1e6 or |K|t > 1e7 are discarded and counted.",
         technique="property-based testing against a high-precision (mpmath expm) reference + differential testing",
         ref="DESIGN.md section 4 C04",
     ),
